@@ -208,7 +208,11 @@ def run(ctx):
         ans = box[0]
         ctx.case(("env", i, repr(detail)), True, detail if i < 3 else None)
         ctx.count("environ-program")
-        pep3333(ctx, ans, True, detail, wall=wall)
+        # no answer only when the handler declined / the client is gone /
+        # the process exits, or the server sent no PATH_INFO at all
+        may_decline = prog in (("abort", 0), ("conn",), ("exit",)) or \
+            "PATH_INFO" not in env
+        pep3333(ctx, ans, may_decline, detail, wall=wall)
 
     # ---------------- known finding replay
     app = new_app()
